@@ -19,6 +19,10 @@ func main() {
 		run.Fatal("%v", err)
 	}
 	run.Budget(4*time.Minute, 25*time.Minute)
+	if run.Replay != "" {
+		dkgcheck.ReplayFile(run, "C08")
+		return
+	}
 	dkgcheck.Run(run, "C08", dkgcheck.Jobs(run))
 	depth := 3
 	dkgcheck.PlainVSS(run, 3, 1, 1, 0, depth)
